@@ -5,7 +5,7 @@ import re
 from . import core
 
 EXT = []
-AWKWARD = {"type", "my-field", "int", "Upper", "a_b", "X-Hdr", "my-p"}
+AWKWARD = {"type", "my-field", "int", "Upper", "a_b", "X-Hdr", "my-p", "$1x", ".5x"}
 
 
 def _kind_of_base(b, owner=""):
@@ -69,7 +69,15 @@ def syntax_class(text):
         return "empty-attribute-in-list"
     if re.search(r"=\{[^}\n]*[^A-Za-z0-9_}\n][^}\n]*\}", text or ""):
         return "unescaped-alias-name-in-query"
-    return "other"
+    found = set()
+    for line in (text or "").split("\n"):
+        if re.match(r"^\s*!(type|table|alias)\s+[^\s:\[]*[^\w%\s:\[-][^\s:\[]*", line):
+            found.add("unescaped-type-name")
+        elif re.match(r"^\s+[^\s\w@!#|/~<%'\"-]\S*\s*<:", line):
+            found.add("unescaped-field-name")
+        elif re.match(r"^\s+%[0-9A-Fa-f]{2}\S*\s*<:", line):
+            found.add("field-name-starting-with-an-escape")
+    return "+".join(sorted(found)) or "other"
 
 
 def shared_array_param(doc, f):
